@@ -158,7 +158,13 @@ def build(cfg, W):
     from clastic import GET, POST
     def typed(n, f=None):
         return Response('answered-by-typed-route %r %r' % (n, f))
-    routes = [GET('/m', m_get), POST('/m', m_post), ('/t/<n:int>', typed), ('/t/<n:int>/<f:float>', typed),
+    def never():
+        return Response('the method-restricted sibling must never run')
+    sib = []
+    if cfg.get('sibling'):
+        # same patterns, a method no request uses: skipped by the method check, allowed_methods becomes non-empty
+        sib = [Route('/r/<beh>/<pos>/<n>', never, methods=['PUT']), Route('/n/<beh>/<pos>/<n>', never, methods=['PUT'])]
+    routes = [GET('/m', m_get), POST('/m', m_post), ('/t/<n:int>', typed), ('/t/<n:int>/<f:float>', typed)] + sib + [
               Route('/r/<beh>/<pos>/<n>', endpoint, render, middlewares=[mw]),
               Route('/n/<beh>/<pos>/<n>', endpoint, middlewares=[mw])]
     return Application(routes, error_handler=handler)
